@@ -68,7 +68,8 @@ def fixed_cases():
              ('h1', '/d/e'): P('doc', links=[L('h1', '/', spelling='../'), L('h1', '/img/1.png', True, '/img/1.png'), L('h1', '/nope')]),
              ('h1', '/c.html'): P('doc', links=[L('h1', '/d/e', spelling='d/e')]),
              ('h1', '/img/1.png'): P('img')}
-    out.append(('redirect-requisites', {'meta': {'pages': pages}, 'opts': OPTS(preq=True), 'starts': [('h1', '/')],
+    # ... with the database named by --database-uri sqlite:///... (the generic SQLAlchemy table class)
+    out.append(('redirect-requisites', {'meta': {'pages': pages}, 'opts': OPTS(preq=True, db_uri=True), 'starts': [('h1', '/')],
                                         'start_spellings': ['HTTP://H1:{PORT}/#top']}))
     # S3: depth limit, 404, two start URLs
     pages = {('h1', '/'): P('doc', links=[L('h1', '/a'), L('h1', '/s')]),
@@ -77,7 +78,8 @@ def fixed_cases():
              ('h1', '/t'): P('doc', links=[L('h1', '/u/v')]),
              ('h1', '/s'): P('nodoc', code=404),
              ('h1', '/k/'): P('doc', links=[L('h1', '/b', spelling='../b')])}
-    out.append(('depth-two-starts', {'meta': {'pages': pages}, 'opts': OPTS(level=2), 'starts': [('h1', '/'), ('h1', '/k/')],
+    # ... with --convert-links: the kill points include the link-conversion stage that follows the crawl
+    out.append(('depth-two-starts', {'meta': {'pages': pages}, 'opts': OPTS(level=2, convert_links=True), 'starts': [('h1', '/'), ('h1', '/k/')],
                                      'start_spellings': [es.canon('h1', '/'), es.canon('h1', '/k/')]}))
     return out
 
